@@ -279,6 +279,7 @@ type VerifDecodeResult struct {
 	Consumed int
 	Keys     []string
 	Frags    map[int32][]byte
+	FragKeys map[int32]string
 }
 
 // VerifDecode runs the real client decoder on data with the given size limit.
@@ -298,8 +299,10 @@ func VerifDecode(limit int, data []byte) (res VerifDecodeResult) {
 	res.Type = m.Type
 	res.Keys = append(res.Keys, m.Keys...)
 	res.Frags = make(map[int32][]byte, len(m.Body))
+	res.FragKeys = make(map[int32]string, len(m.Body))
 	for s, f := range m.Body {
 		res.Frags[s] = append([]byte(nil), f.Req...)
+		res.FragKeys[s] = f.Key
 	}
 	return
 }
